@@ -107,9 +107,10 @@ def norm_round(io, unit, inc):
     within = and_(le(-cap, expect), le(expect, cap))
     io.prove("C07.norm_round.ok_iff_result_within_cap", eq(res.d, 0) == within if is_c(res.d) and is_c(within)
              else and_(implies(eq(res.d, 0), within), implies(within, eq(res.d, 0))))
-    pay = res.v[0][0]
-    val = pay.f[0].t if isinstance(pay, symex.Agg) else pay.t
-    io.prove("C07.norm_round.value", eq(val, expect), hyp=eq(res.d, 0))
+    if 0 in res.v:
+        pay = res.v[0][0]
+        val = pay.f[0].t if isinstance(pay, symex.Agg) else pay.t
+        io.prove("C07.norm_round.value", eq(val, expect), hyp=eq(res.d, 0))
     io.obligations("C07.norm_round")
 
 
